@@ -204,6 +204,31 @@ entry(
     "DESIGN.md section 2, C17",
 )
 
+entry(
+    "C01",
+    "Hypothesis-driven statistical property testing: layered z-tests (|z| <= 7 with confirmation run) on pooled generator samples and seeded SRF ensembles against model functions",
+    "Layered so that most Monte-Carlo noise disappears: iid N(0,1) amplitudes; pooled wave vectors (uniform directions, radial law vs an independently "
+    "integrated cdf, characteristic-function identity mean cos(k.h) = rho(h) at generated lags, for inversion and MCMC sampling with a declared bias "
+    "allowance); non-growth of the error from N to 16N modes; black-box SRF ensembles (120-6000 seeds, <= 6 points / small grids, anisotropic rotated "
+    "models with nugget) vs cov_spatial + nugget with independent geometry; Fourier generator with randomness removed (documented grid and weights vs the "
+    "generator's table, exact ensemble covariance vs a seeded ensemble, convergence under refinement); vector-field component covariances vs the projected "
+    "spectrum. Evidence is statistical and proportional to the sample sizes stated in the evidence file.",
+    "Trusted: model.correlation / spectral_density (C03/C04); the field value equals the defining mode sum (C15 wrappers sub-check); z thresholds and the MCMC "
+    "bias allowance 0.25 sqrt(100/N) as declared; two known sampler findings (K1 numerical-Hankel spectra in dim >= 2, K24 heavy tails) are excluded from "
+    "the main search and probed on every run.",
+    "DESIGN.md section 2, C01",
+)
+entry(
+    "C16",
+    "Hypothesis property-based testing: exact divergence through the kernel itself, Richardson finite differences through SRF, independent projector algebra, seeded moment z-tests",
+    "For 16 classes in dim 2/3: SRF(generator='VectorField') output equals mean_u e1 + mean_u sqrt(var/N) x kernel on the generator's own arrays; the "
+    "analytic divergence (mode sum with amplitudes (z2 k_i, -z1 k_i)) vanishes at 1e-12 sum|terms| + rounding floor; central differences with Richardson "
+    "extrapolation through SRF (points and structured stencils) give zero divergence at 1e-6 |grad u|; k.p(k) = 0 and own numpy mode sum; mean (u,0[,0]) and "
+    "component variances u^2 var (3/8,1/8) / (8/15,1/15,1/15) over 300-600 seeds at |z| <= 7 with confirmation.",
+    "Trusted: derivation of the variance fractions (in the module), numpy; classes whose spectral law is not verified (K1) are used only in the deterministic sub-checks.",
+    "DESIGN.md section 2, C16",
+)
+
 
 def main():
     props = [json.loads(l) for l in open(os.path.join(VERIF, "properties.jsonl"))]
